@@ -24,7 +24,7 @@ CHECKS = {
         level="exploration",
         rule="rapid draws pictures biased to transparency (binary, few levels, gradient, noise, semi-transparent flat, fully transparent) x lossy options incl. AlphaCompression/AlphaFiltering/AlphaQuality/Method/Exact; "
              "oracle: AlphaQuality 100 => decoded alpha == source alpha exactly; opaque source => no ALPH/flag and opaque decode; AlphaQuality<100 => #levels <= documented mapping and min/max preserved; libwebp's alpha equals the package's. "
-             "Non-trivial: >=2 source alpha levels; distinct = (alpha class, level-count bucket, ALPH method x filter chosen, Method, quantised or not).",
+             "Also the skip-heavy class of C06 (4 % of the cases) and the holes alpha class. Non-trivial: >=2 source alpha levels; distinct = (alpha class, level-count bucket, ALPH method x filter chosen, Method, quantised or not).",
         assumptions=["documented level mapping: 2+q/5 for q<=70, 16+(q-70)*8 above (internal/lossy/alpha.go comment)"],
         tests=[dict(name="TestC07", quick=32000, thorough=90000)],
     ),
@@ -32,7 +32,7 @@ CHECKS = {
         level="exploration",
         rule="rapid draws blobs (nil, empty, 1 byte, odd, even, chunk-like tokens, up to 70 KB) for every subset of ICC/EXIF/XMP x every source image type and placement x {lossy, lossy+alpha, lossless, lossless+alpha stills; 1-4 frame lossy/lossless animations, and 1 animation in 40 with 500-2100 frames of a tiny canvas}; "
              "oracle: riffwalk validates; blobs byte-exact in the file, via Demuxer.GetChunk and via animation.DecodeBytes; flags <=> chunks; image/ALPH chunk bytes and decoded pixels/playback identical with and without metadata; thorough adds the 100 MB cap (+1 rejected, exactly 100 MB accepted and read back). "
-             "Non-trivial: >=1 non-empty blob; distinct = (kind, subset+parities, codec, alpha, frame count).",
+             "(arena) in a third of the cases the three blobs are consecutive sub-slices of one buffer (spare capacity behind each, the next blob directly behind the previous one): same oracle, and the buffer must be unchanged afterwards. Non-trivial: >=1 non-empty blob; distinct = (kind, subset+parities, codec, alpha, frame count).",
         assumptions=["an empty (zero-length) blob may be stored as an empty chunk or omitted; both accepted"],
         tests=[dict(name="TestC15", quick=2400, thorough=32000), dict(name="TestC15Limit", quick=1, thorough=1, shards=1, thorough_only=True, no_replay=True)],
     ),
@@ -40,7 +40,7 @@ CHECKS = {
         level="exploration",
         rule="rapid draws an NRGBA picture and 3-6 equivalent presentations (sub-image of a larger garbage-filled parent, non-zero Rect.Min, stride padding with garbage, generic image.Image wrapper, *image.RGBA for opaque pictures) x lossy/lossless options; a third of the cases also store the picture in a standard-library image type (NRGBA64, RGBA64, Gray, Gray16, Paletted, CMYK, Alpha, YCbCr 4:4:4/4:2:2/4:2:0/4:4:0/4:1:1/4:1:0) at any origin parity and require the bytes of an *image.NRGBA at the origin holding the colours that image yields; "
              "oracle (metamorphic): all presentations give byte-identical files from a pool-flushed state; changing only out-of-bounds bytes changes nothing; SHA-256 of the caller's whole backing buffer unchanged. "
-             "Non-trivial: >=2 colours and >=3 presentations; distinct = (codec, alpha, Exact, sharp, preprocessing, Method, presentation list).",
+             "Padded-stride presentations include strides that are not a multiple of four (4*w + 1, 2, 3, 5, 6, 13 bytes). Non-trivial: >=2 colours and >=3 presentations; distinct = (codec, alpha, Exact, sharp, preprocessing, Method, presentation list).",
         assumptions=["sync.Pool state is normalised (runtime.GC x2) before each compared encode; history dependence is C11's subject"],
         tests=[dict(name="TestC19", quick=1200, thorough=40000)],
     ),
@@ -48,7 +48,7 @@ CHECKS = {
         level="exploration",
         rule="rapid draws option sets with 1-3 fields overwritten by boundary/out-of-range/extreme values (incl. NaN, +-Inf, MinInt, MaxInt), sentinel substitutions, lossy-only fields under Lossless, EmulateJpegSize toggles, nil options, nil writer/image, boundary image sizes (0, 1, 16383, 16384); "
              "oracle: never panics; documented-invalid => error and nothing written; documented-valid => success + C02 structural validator + decodes; sentinel == documented default byte for byte; lossy-only options do not change lossless bytes; nil options == DefaultOptions(). "
-             "Non-trivial: every case (each sits on a boundary or relation); distinct = (mode, field, boundary kind).",
+             "A third of the sentinel comparisons run under rate control (48-128 px busy picture, TargetSize 300-20000 or TargetPSNR 24-46). Non-trivial: every case (each sits on a boundary or relation); distinct = (mode, field, boundary kind).",
         assumptions=["documented ranges = EncoderOptions field comments; Segments/Pass 0 count as 'use default' as validateConfig documents"],
         tests=[dict(name="TestC20", quick=6400, thorough=80000)],
     ),
@@ -67,7 +67,7 @@ CHECKS = {
         level="exploration",
         rule="rapid draws pictures (incl. non-multiples of 16, >=4 macroblock rows, and 5% large pictures of 400-640 x 336-640 = 525-1600 macroblocks made of one texture with 1-3 outlier blocks, so that rounded segment/skip probabilities saturate) x the lossy option product (targets, passes, presets, segments, partitions, sharp YUV, dithering) x GOMAXPROCS {1,2,3,4,8} (serial and row-parallel encoder); 7 % of the cases are 160-336 px pictures (100-440 macroblocks) with flat bars (letterbox) or other content and a TargetSize/TargetPSNR with 2-6 passes; the verif-tagged FrameEncoded hook copies the encoder's reconstruction after every pass (last one kept). "
              "Oracle: vendored x/image/vp8 with the loop filter skipped == reconstruction; package decoder with NoLoopFilter hook == reconstruction; when the stream's filter level is 0 the plain public Decode == reconstruction; decoded size == source size. "
-             "Non-trivial: >=2 colours; distinct = (serial/parallel path, Method, segments, filter off, pass count, sharp, target mode, preprocessing).",
+             "(skip-heavy class, 6 % of the cases) 97-1200 macroblocks in 1-3 rows, 1-3 columns or a squarish grid, flat ground with 0-3 small textured patches, Quality 0-12, rate-control target kept in half of them: nearly every macroblock is skipped, the skip/segment probabilities round to 0 or 255 and the mid-frame probability refreshes see no new statistics. All content classes may carry a channel relation (grey, green-only, red = blue). Non-trivial: >=2 colours; distinct = (serial/parallel path, Method, segments, filter off, pass count, sharp, target mode, preprocessing).",
         assumptions=["the hook observes the planes the encoder used as prediction reference (encoder writes its reconstruction into its Y/U/V planes)", "vendored x/image/vp8 + SkipLoopFilter switch as independent pre-deblocking decoder"],
         tests=[dict(name="TestC06", quick=12000, thorough=60000)],
     ),
@@ -89,7 +89,7 @@ CHECKS = {
         level="fault_enumeration",
         rule="files: rapid-drawn pictures encoded by the package (lossy with 1/2/4/8 partitions, lossless, lossy+alpha raw/compressed, with/without ICC/EXIF/XMP before and after the image, plus a trailing unknown chunk), by libwebp 1.2.4, and /verif-generated VP8 frames; for EVERY file EVERY proper prefix length 0..len-1 is enumerated (the fault = truncation point). "
              "Each prefix is read through a bytes.Reader and through one of six other legal reader behaviours (rotating with the prefix length). Oracle: Decode(prefix) is an error or an image identical in type, bounds and samples to the full decode; DecodeConfig/GetFeatures(prefix) is an error or equal in all fields to the complete file's. "
-             "Non-trivial: every file (all its cut points inside chunk payloads are visited); distinct = (source, chunk layout + partition count, decoded type). prefixes_checked counts the enumerated truncation points.",
+             "File kind bigdims: one side 256..16383 (header fields that use their upper bits), compressible content; when file length x picture size exceeds 6e7 the prefixes are thinned to the first 160 bytes, +-3..11 bytes around every chunk boundary, the last 40 bytes and 96 even cuts. Every third prefix is also delivered by a source that fails with an error after the prefix instead of ending. Non-trivial: every file (all its cut points inside chunk payloads are visited); distinct = (source, chunk layout + partition count, decoded type). prefixes_checked counts the enumerated truncation points.",
         assumptions=["files the package's Decode rejects in full are outside the property's domain and counted inconclusive"],
         tests=[dict(name="TestC17", quick=3200, thorough=12000)],
     ),
@@ -123,7 +123,7 @@ CHECKS = {
         level="exploration",
         rule="rapid draws Muxer call sequences (1-14 ops; an AddFrame may be repeated 200-10001 times: long animations around the 1000-chunk and 10000-frame limits): AddFrame with real VP8/VP8L bitstreams from a pool of 35 (lossy, lossless, lossy with compressed and raw ALPH prefix, VP8L with alpha bit; odd and even payload lengths) and FrameOptions (nil; offsets even/odd; durations incl. 0, >2^24-1 and negative = documented clamping; blend; dispose), SetFrameDisposeMode/SetFrameDuration on valid and invalid indices, SetCanvasSize (incl. 0, clamped values), SetLoopCount (clamped), SetBackgroundColor, SetICCProfile/SetEXIF/SetXMP/AddChunk with nil/empty/odd/even/chunk-like/format-signature blobs and lengths around powers of two (2^k-9..2^k+9, k<=12); half of the cases hand every payload over as a plain sub-slice of ONE buffer (back to back, so that a slice's spare capacity covers the next payload) and require that buffer to be unchanged afterwards; then Assemble (and, for accepted states, Assemble again into writers that fail after k bytes: it must report the failure). "
              "Oracle: a model of the muxer state predicts acceptance and structure. Accepted: riffwalk validates the file; mux.Demuxer AND container.Parser return the same bitstreams and ALPH payloads byte for byte, offsets rounded down to even, clamped durations, blend/dispose, loop count, background colour, canvas, metadata; GetFeatures agrees; stills decode to the same pixels as their bitstream alone. Rejected: an error, and nothing that parses as a complete file was written; consistent states must not be rejected, frames outside the canvas must be. "
-             "Non-trivial: alpha-prefixed frame, >=2 frames or metadata; distinct = (animated, frame count, setters used, payload parities, fits).",
+             "The FrameIterator must yield exactly Frame(0..n-1) and then report the end; Frame(-1) and Frame(n) must fail. Non-trivial: alpha-prefixed frame, >=2 frames or metadata; distinct = (animated, frame count, setters used, payload parities, fits).",
         assumptions=["offsets non-negative; canvas area kept below the package's 2^30-pixel reader cap; for stills with an explicit canvas different from the picture the strict still-canvas rule of riffwalk is not applied"],
         tests=[dict(name="TestC14", quick=64000, thorough=600000)],
     ),
@@ -132,7 +132,7 @@ CHECKS = {
         rule="well-formed files from four sources: Encode outputs (all codecs, alpha, metadata), AnimEncoder outputs (lossless/lossy/mixed), and hand-assembled containers written by /verif's riffgen: VP8X stills with/without ALPH incl. a zero-length ALPH, ICCP/EXIF/XMP before or after the image, unknown chunks, feature flags over- or under-stating the optional chunks (canvas == image size), and VP8X animations (ANIM + 1-5 ANMF frames inside the canvas, ALPH/VP8/VP8L sub-chunks, unknown chunks between/inside frames). "
              "Oracle: GetFeatures, DecodeConfig, mux.Demuxer and animation.DecodeBytes all accept and agree on canvas size, animation flag, frame count and (animated) loop count; for stills Decode accepts: header width/height == decoded bounds, DecodeConfig.ColorModel == decoded image's ColorModel(), format name matches the first chunk, package-written files set the alpha flag whenever a decoded pixel is not opaque, image.Decode/image.DecodeConfig report \"webp\" and the same results; DecodeConfig, GetFeatures, Decode and image.DecodeConfig give the same answers when the file arrives through another legal io.Reader (one byte per Read, half reads, data together with io.EOF, 16-byte and 4096-byte buffered readers, no Len method). "
              "Non-trivial: every file; distinct = (source, format, animated, chunk layout with empty/odd markers). "
-             "Thorough adds a native coverage-guided campaign (FuzzC16): bytes that the strict container validator accepts as a well-formed file go through the same cross-view comparison.",
+             "One riffgen case in six carries an ICCP / EXIF-first / unknown chunk of 4 KiB-1 MiB (+-40 bytes around powers of two) in front of the image data. Thorough adds a native coverage-guided campaign (FuzzC16): bytes that the strict container validator accepts as a well-formed file go through the same cross-view comparison.",
         assumptions=["the harness binary links no other decoder registering the webp format (x/image/webp is vendored without its init)"],
         tests=[dict(name="TestC16", quick=48000, thorough=400000)],
         fuzz=[dict(name="FuzzC16", seconds=120)],
@@ -141,7 +141,7 @@ CHECKS = {
         level="exploration",
         rule="rapid draws pictures sized to engage each parallel site (lossy: >=4 macroblock rows; lossless: >50,000 px for the hash chain and tile-parallel predictor/cross-colour/histogram code, >=100,000 px for the parallel inverse cross-colour and ARGB conversion in the decoder; small pictures too) x lossy/lossless options; for GOMAXPROCS drawn from {1,2,3,4,5,6,7,8,12,16,32} (always including 1) Encode bytes (from a flushed-pool state) and Decode pixels must be equal for all values; the large lossless classes also come in extreme shapes (long side 1200..16000). (animation) generated frame sequences are encoded by the animation encoder and read back with DecodeFramesParallel at each GOMAXPROCS: file bytes and every decoded frame must be equal. "
              "On a difference the verif-tagged Workers hook re-runs with single sites pinned to one worker to attribute it to a call site (known findings are keyed by site). "
-             "Non-trivial: at least one parallel site saw more than one worker (hook; for animations the frame-parallel decoder with >=2 frames); distinct = (codec, sites engaged, Method, size class).",
+             "A third of the lossy cases run their multi-worker encodes under a drawn delay plan (Gosched x1-20 or 1-200 us sleeps at the row pipeline's six hook points, per row class): the bytes must equal the GOMAXPROCS=1 bytes however the extra workers interleave. Content may carry a channel relation (grey, green-only, red = blue); alpha classes incl. noise and levels. Non-trivial: at least one parallel site saw more than one worker (hook; for animations the frame-parallel decoder with >=2 frames); distinct = (codec, sites engaged, Method, size class).",
         assumptions=["runtime.GOMAXPROCS(n) inside one process stands for a process started with that setting", "pool state normalised before each compared encode"],
         tests=[dict(name="TestC12", quick=480, thorough=4000), dict(name="TestC12Anim", quick=960, thorough=16000)],
     ),
@@ -149,7 +149,7 @@ CHECKS = {
         level="exploration",
         rule="rapid draws call histories (3-14 steps, thorough 3-25) over Encode (lossy/lossless, sizes drawn from three per-history sizes so that equal macroblock counts recur, jittered pixel sizes with the same macroblock count, NRGBA/RGBA/generic sources, assorted options incl. targets), Decode and DecodeConfig/GetFeatures of seed files (intact, truncated, bit-flipped: errors must not poison pools), animation-encoder runs (lossless/lossy/mixed), animation playback, and Muxer runs (1-4 frames from C14's bitstream pool with offsets/durations/blend/dispose and an EXIF blob, assembled and read back through a Demuxer); a fifth of the histories are decoder-focused: mostly decodes of freshly generated VP8 (or VP8L) streams that share the history's sizes. "
              "The history runs with the GC disabled (pooled objects survive); every previously returned value and caller-owned input is re-hashed after every later call. Oracle: each call's result equals the result of the same call from a flushed-pool (fresh) state. "
-             "Non-trivial: the verif-tagged Pool hook saw at least one pool hit during the history; distinct = sequence of (previous op -> op) pairs.",
+             "Op frameenc: the exported frame-codec hooks animation.FrameEncoderFunc / SimpleEncodeFunc called directly (what the muxer and other callers keep while later frames are encoded); their results are retained and re-checksummed like every other result. Non-trivial: the verif-tagged Pool hook saw at least one pool hit during the history; distinct = sequence of (previous op -> op) pairs.",
         assumptions=["runtime.GC() twice empties every sync.Pool, standing for a fresh process", "results are compared through digests (bytes; image type+bounds+samples; error text)"],
         tests=[dict(name="TestC11", quick=800, thorough=10000)],
     ),
